@@ -295,13 +295,20 @@ def make_eq(L, case, rng, *, deterministic=False):
     return L[cls](RATE, noise=ns["noise"], noise_interpretation=interp, rng=rng)
 
 
-def oracle(np, u0, V, a, var_of, alpha, solver, dt, xis, *, implicit_drift=False, ret_scale=False):
-    """the documented update, step by step"""
+def oracle(np, u0, V, a, var_of, alpha, solver, dt, xis, *, implicit_drift=False, ret_info=False):
+    """the documented update, step by step
+
+    With ``ret_info`` also returns the largest magnitude met on the way and, for the semi-implicit scheme,
+    ``growth`` = sum over the steps k of the factor by which an error made in step k is amplified until the
+    end (the maps are local: additive noise -> (1 - a dt)^-(steps - k) <= 1; variance ~ u^2 -> the step is
+    homogeneous of degree one in u, so the factor is exactly |u_final / u_k| per component)."""
     u = u0.copy()
     scale = float(np.max(np.abs(u)))
+    after = []
+    homogeneous = False
     for xi in xis:
-        scale = max(scale, float(np.max(np.abs(u))))
         var, dvar = var_of(u)
+        homogeneous = homogeneous or bool(np.any(dvar != 0))
         if solver == "euler":
             u = u + dt * (a * u) + np.sqrt(var * dt / V) * xi + 0.5 * alpha * dt * dvar / V
         elif solver == "milstein":
@@ -312,9 +319,27 @@ def oracle(np, u0, V, a, var_of, alpha, solver, dt, xis, *, implicit_drift=False
             if implicit_drift:
                 start = start + 0.5 * alpha * dt * dvar / V
             u = start / (1 - a * dt)
-    if ret_scale:
-        return u, max(scale, float(np.max(np.abs(u))))
-    return u
+        after.append(u)
+        scale = max(scale, float(np.max(np.abs(u))))
+    if not ret_info:
+        return u
+    growth = float(len(xis))
+    if solver == "implicit" and homogeneous:
+        with np.errstate(all="ignore"):
+            growth = float(sum(np.max(np.abs(u / uk)) for uk in after))
+        if not math.isfinite(growth):
+            growth = math.inf
+    return u, {"scale": scale, "growth": growth}
+
+
+def implicit_slack(np, solver, dt, a, size, scale, growth):
+    """absolute error that the stopping rule of the semi-implicit iteration admits: it stops when the rms
+    change is < maxerror, i.e. every component changed by < sqrt(size) maxerror and is then within
+    |z|/(1-|z|) of that from the fixed point (contraction z = a dt); amplified until the end by `growth`"""
+    if solver != "implicit":
+        return 0.0
+    z = float(np.max(np.abs(a))) * dt
+    return math.sqrt(size) * iter_args(solver, scale)["maxerror"] * z / (1 - z) * growth
 
 
 def iter_args(solver, scale=1.0):
@@ -339,12 +364,14 @@ def run_solve(eq, s0, case, dt, steps, *, deterministic=False, scale=1.0):
 _MAXREL = [0.0]
 
 
-def _close(np, got, exp, tol=TOL, scale=1.0):
-    scale = max(1.0, scale, float(np.max(np.abs(exp))))
+def _close(np, got, exp, tol=TOL, slack=0.0):
+    """|got - exp| <= tol * max(1, |exp|) + slack   (slack: see implicit_slack)"""
+    scale = max(1.0, float(np.max(np.abs(exp))))
     err = float(np.max(np.abs(got - exp)))
-    if err <= tol * scale:
+    ok = err <= tol * scale + slack
+    if ok:
         _MAXREL[0] = max(_MAXREL[0], err / scale)  # largest accepted deviation (reported in the evidence)
-    return err <= tol * scale, err
+    return ok, err
 
 
 def _label(case):
@@ -445,12 +472,14 @@ def sde_case(case):
                 eq = make_eq(L, case, gen)
                 if eq.rng is not gen:
                     bad("the equation does not own the generator it was given", dt, steps, seed)
-                scale = 1.0
+                scale, slack = 1.0, 0.0
                 if not vanishing:
                     xis, ref_state = reference_draws(seed, steps)
-                    exp, scale = oracle(np, u0, V, a, var_of, alpha, solver, dt, xis, ret_scale=True)
+                    exp, oinfo = oracle(np, u0, V, a, var_of, alpha, solver, dt, xis, ret_info=True)
+                    scale = oinfo["scale"]
                     if solver == "implicit" and fd and alpha != 0:
                         scale *= 10  # nothing is demanded there; leave room for the other reading
+                    slack = implicit_slack(np, solver, dt, a, u0.size, scale, oinfo["growth"])
                 if numba_backend:
                     random_seed(seed)
                 try:
@@ -483,9 +512,7 @@ def sde_case(case):
                     continue
 
                 observe_only = solver == "implicit" and fd and alpha != 0
-                # (semi-implicit: converged to maxerror = 1e-15 * scale of the trajectory, hence that scale)
-                cscale = scale if solver == "implicit" else 1.0
-                ok, err = _close(np, got, exp, scale=cscale)
+                ok, err = _close(np, got, exp, slack=slack)
                 if observe_only:
                     # not demanded by the property: classify what the semi-implicit solver does
                     if ok:
@@ -494,11 +521,11 @@ def sde_case(case):
                         exp2 = oracle(np, u0, V, a, var_of, alpha, solver, dt, xis, implicit_drift=True)
                         outs.add(
                             f"semi-implicit + field-dependent variance + {interp}: "
-                            + ("drift added to the start state" if _close(np, got, exp2, scale=cscale)[0] else "neither reading")
+                            + ("drift added to the start state" if _close(np, got, exp2, slack=slack)[0] else "neither reading")
                         )
                 elif not ok:
-                    bad("increment differs", dt, steps, seed, err=err, got=got.ravel()[:3].tolist(),
-                        exp=exp.ravel()[:3].tolist())
+                    bad("increment differs", dt, steps, seed, err=err, allowed=TOL * max(1.0, float(np.max(np.abs(exp)))) + slack,
+                        got=got.ravel()[:3].tolist(), exp=exp.ravel()[:3].tolist())
                 else:
                     outs.add("ok: stochastic update matches")
                 if not same_state(state_after, ref_state):
@@ -733,7 +760,7 @@ def jit_case(case):
     for seed in SEEDS:
         random_seed(seed)
         scale = max(scale, oracle(np, u0, V, a, var_of, alpha, solver, dt, [draw() for _ in range(max(STEPS))],
-                                  ret_scale=True)[1])
+                                  ret_info=True)[1]["scale"])
     sol = SolverBase.from_name(solver, pde=eq, backend="numba", **iter_args(solver, scale))
     stepper = sol.make_stepper(state=s0.copy(), dt=dt)
     viol, keys, n = [], [], 0
@@ -749,7 +776,8 @@ def jit_case(case):
             random_seed(seed)
             xis = [draw() for _ in range(steps)]
             nxt = probe()
-            exp = oracle(np, u0, V, a, var_of, alpha, solver, dt, xis)
+            exp, oinfo = oracle(np, u0, V, a, var_of, alpha, solver, dt, xis, ret_info=True)
+            slack = implicit_slack(np, solver, dt, a, u0.size, scale, oinfo["growth"])
             runs = []
             for _ in range(2):
                 s = s0.copy()
@@ -758,7 +786,7 @@ def jit_case(case):
                 n += 1
                 runs.append((s.data.copy(), probe()))
             got, nxt_got = runs[0]
-            ok, err = _close(np, got, exp, scale=scale if solver == "implicit" else 1.0)
+            ok, err = _close(np, got, exp, slack=slack)
             if not ok:
                 bad("increment differs", steps, seed, err=err)
             if nxt_got != nxt:
